@@ -224,7 +224,7 @@ pub struct Sig {
 
 /// Structs whose translated methods may be called on `self` from other translated methods of the same struct (everywhere else a
 /// `self.m(..)` statement is an entry of the effect log, which is what the statement-compiler theorems are stated over).
-const INLINE_SELF_CALL_OWNERS: &[&str] = &["ObjStringStore"];
+const INLINE_SELF_CALL_OWNERS: &[&str] = &["ObjStringStore", "Stack"];
 
 fn lean_ident(s: &str) -> String {
     let mut out: String = s
@@ -244,6 +244,11 @@ fn lean_ident(s: &str) -> String {
 }
 
 impl<'a> Cx<'a> {
+    /// translating a method of `stack.rs: Stack<T, N>`: pointers into `self.stack` are offsets, `*p` reads / writes the array
+    fn stack_mode(&self) -> bool {
+        self.self_ty.as_deref() == Some("Stack") && self.file == "stack.rs"
+    }
+
     fn un<T>(&self, why: impl Into<String>) -> R<T> {
         if std::env::var("XLATE_DEBUG").is_ok() {
             eprintln!("UN {}: {}", self.item, std::backtrace::Backtrace::force_capture());
@@ -260,6 +265,8 @@ impl<'a> Cx<'a> {
         match t {
             Ty::Ref(i) => self.conv(i),
             Ty::RawPtr { inner, .. } if matches!(&**inner, Ty::Path { name, .. } if name == "u8") => LT::I("isize"),
+            // `*mut T` inside `impl Stack<T, N>`: a pointer into the boxed array `self.stack`, kept as its offset from the array's start
+            Ty::RawPtr { inner, .. } if self.stack_mode() && matches!(&**inner, Ty::Path { name, .. } if name == "T") => LT::I("isize"),
             Ty::Slice(i) => LT::List(Box::new(self.conv(i))),
             Ty::Array(i, _) => LT::List(Box::new(self.conv(i))),
             Ty::Tuple(v) if v.is_empty() => LT::Unit,
@@ -269,6 +276,8 @@ impl<'a> Cx<'a> {
                     return i;
                 }
                 match name.as_str() {
+                    // the element type of `Stack<T, N>`: the interpreter's stacks hold values
+                    "T" if self.stack_mode() => LT::Value,
                     "f64" => LT::F64,
                     "bool" => LT::Bool,
                     "Value" => LT::Value,
